@@ -282,6 +282,14 @@ class Gen:
             if r.random() < 0.5:
                 return ("quote", ("dlist", [I(r.randint(-9, 9)) for _ in range(k)]))
             return A("list", *[I(r.randint(-9, 9)) for _ in range(k)])
+        if ty == "hash":
+            k = r.randint(0, 3)
+            args = []
+            for _ in range(k):
+                args += [I(r.randint(0, 5)), I(r.randint(-9, 9))]
+            return A("hash", *args)
+        if ty == "ivec":
+            return A("vector", *[I(r.randint(-9, 9)) for _ in range(r.randint(1, 4))])
         raise ValueError(ty)
 
     def vars_of(self, env, ty):
@@ -369,7 +377,7 @@ class Gen:
         envb = dict(env)
         for _ in range(n):
             x = self.fresh("v")
-            t2 = r.choice(["int", "int", "bool", "ilist", "str"])
+            t2 = r.choice(["int", "int", "bool", "ilist", "str", "ivec", "hash"])
             binds.append((x, self.expr(t2, d - 1, envb if kind == "let*" else env)))
             env2[x] = t2
             if kind == "let*":
@@ -422,6 +430,11 @@ class Gen:
             return A(r.choice(["display", "display", "write"]), self.expr(ty, d, env))
         if k < 0.6:
             return A("newline")
+        vecs = self.vars_of(env, "ivec")
+        if vecs and k < 0.75:
+            self.stat("vector-set!")
+            v = V(r.choice(vecs))
+            return ("when", A("<", I(0), A("vector-length", v)), [A("vector-set!", v, I(0), self.expr("int", d, env))])
         mut = [x for x in self.globals if x in self.mutable and self.globals[x] in ("int", "ilist")]
         mutl = [x for x in env if x in self.local_mut and env[x] == "int"]
         if (mut or mutl) and k < 0.9:
@@ -471,7 +484,38 @@ class Gen:
         if k < 0.93:
             self.stat("closure-counter")
             return self.counter(d, env)
-        return A("vector-ref", A("vector", *[self.expr("int", d - 2, env) for _ in range(3)]), I(r.randint(0, 2)))
+        if k < 0.95:
+            return A("vector-ref", A("vector", *[self.expr("int", d - 2, env) for _ in range(3)]), I(r.randint(0, 2)))
+        k2 = r.random()
+        if k2 < 0.3:
+            self.stat("hash-read")
+            h = self.fresh("h")
+            key = I(r.randint(0, 5))
+            env2 = dict(env)
+            return ("let", [(h, self.expr("hash", d - 1, env))],
+                    [("if", A("hash-contains?", V(h), key), A("hash-ref", V(h), key), A("hash-length", V(h)))])
+        if k2 < 0.5:
+            vs = self.vars_of(env, "ivec")
+            if vs:
+                self.stat("vector-read")
+                v = V(r.choice(vs))
+                return ("if", A("<", I(0), A("vector-length", v)), A("vector-ref", v, I(0)), I(0))
+        if k2 < 0.8:
+            # a call with many arguments (the native tier spills beyond 8)
+            self.stat("many-args")
+            n = r.choice([7, 8, 9, 10, 12])
+            ps = [self.fresh("m") for _ in range(n)]
+            env2 = dict(env)
+            env2.update({p_: "int" for p_ in ps})
+            body = A("+", *[V(p_) for p_ in r.sample(ps, 3)], self.expr("int", d - 2, env2))
+            f = self.fresh("mf")
+            return ("let", [(f, ("lam", ps, None, [body]))], [A(f, *[self.expr("int", d - 2, env) for _ in ps])])
+        self.stat("closure-factory")
+        mk, c = self.fresh("mk"), self.fresh("c")
+        a, b = self.fresh("k"), self.fresh("k")
+        return ("let", [(mk, ("lam", [c], None, [("lam", [], None, [("set", c, A("+", V(c), I(1))), V(c)])]))],
+                [("let", [(a, A(mk, self.expr("int", d - 2, env))), (b, A(mk, I(100)))],
+                  [A("+", A(a), A(a), A(b), A(a))])])
 
     def counter(self, d, env):
         """A closure capturing and mutating a local variable, called several times."""
@@ -514,6 +558,23 @@ class Gen:
             ty = r.choice(["int", "ilist", "str", "sym", "bool"])
             return A(r.choice(["number?", "string?", "symbol?", "boolean?", "procedure?"]), self.expr(ty, d - 1, env))
         return A("string=?", self.expr("str", d - 1, env), self.expr("str", d - 1, env))
+
+    def expr_hash(self, d, env):
+        r = self.rng
+        k = r.random()
+        self.stat("hash-op")
+        if k < 0.5:
+            return A("hash-insert", self.expr("hash", d - 1, env), I(r.randint(0, 5)), self.expr("int", d - 1, env))
+        if k < 0.7:
+            return A("hash-remove", self.expr("hash", d - 1, env), I(r.randint(0, 5)))
+        return self.lit("hash")
+
+    def expr_ivec(self, d, env):
+        r = self.rng
+        self.stat("vector-op")
+        if r.random() < 0.4:
+            return A("make-vector", I(r.randint(0, 3)), self.expr("int", d - 1, env))
+        return A("vector", *[self.expr("int", d - 1, env) for _ in range(r.randint(0, 4))])
 
     def expr_str(self, d, env):
         r = self.rng
@@ -577,7 +638,7 @@ class Gen:
     # ---- top level
     def toplevel_define_var(self, d):
         r = self.rng
-        ty = r.choice(["int", "int", "ilist", "str", "bool"])
+        ty = r.choice(["int", "int", "ilist", "str", "bool", "hash", "ivec"])
         x = self.fresh("g")
         e = self.expr(ty, d, dict(self.globals))
         self.globals[x] = ty
@@ -639,7 +700,7 @@ class Gen:
         if k < 0.52:
             self.stat("toplevel-error-dead")
             return ("if", ("bool", False), self.error_expr(d, env), self.expr("int", d - 1, env))
-        return self.expr(r.choice(["int", "int", "ilist", "bool", "str", "sym"]), d, env)
+        return self.expr(r.choice(["int", "int", "ilist", "bool", "str", "sym", "hash", "ivec"]), d, env)
 
     def program(self, nforms=None, depth=None):
         r = self.rng
@@ -744,6 +805,9 @@ class Gen:
         if ty == "ilist":
             vs = self.vars_of(env, "ilist")
             return A("cons", self.lit("int"), V(r.choice(vs))) if vs and r.random() < 0.5 else self.lit("ilist")
+        if ty == "hash":
+            vs = self.vars_of(env, "hash")
+            return A("hash-insert", V(r.choice(vs)), self.lit("int"), self.lit("int")) if vs and r.random() < 0.5 else self.lit("hash")
         return self.lit(ty)
 
 
